@@ -1,4 +1,5 @@
-(* Corr/C01.v — policies compose as nested wrappers: correspondence on whole executions *)
-From FS Require Export Corr.ExecCorr.
+(* Corr/C01.v — correspondence on whole executions (shared machinery: Corr/ExecCorr.v) and the
+   C01 checker evaluated on the implementation's own logs (Corr/ExecCheckers.v). *)
+From FS Require Export Corr.ExecCorr Corr.ExecCheckers.
 Definition case := hcase.
-Definition checker_failures (cs : list hcase) : list Z := [].
+Definition checker_failures (cs : list hcase) : list Z := failures_of c01_ok cs.
